@@ -150,6 +150,7 @@ func (r *c09Run) explore(units [][]c09Case, progress func(i int, res []c09Result
 	obs := make([][]c09Obs, len(units))
 	type ref struct{ u, k int }
 	var faults []ref
+	listed := map[ref]bool{}
 	accepted := 0
 	for u := range res {
 		obs[u] = make([]c09Obs, len(res[u]))
@@ -159,11 +160,14 @@ func (r *c09Run) explore(units [][]c09Case, progress func(i int, res []c09Result
 				// quick tier: a first-pass fault whose signature is a listed finding is taken as that
 				// finding without confirmation (confirmation exists to keep load and interpreter
 				// state from producing a verdict; a listed signature produces none)
-				if known != nil && !r.c.Thorough() && rs.Status != "S" {
+				if known != nil && rs.Status != "S" {
 					if how := known(u, k, rs, kind); how != "" {
-						obs[u][k].Kind, obs[u][k].How = kind, how
-						accepted++
-						continue
+						if !r.c.Thorough() {
+							obs[u][k].Kind, obs[u][k].How = kind, how
+							accepted++
+							continue
+						}
+						listed[ref{u, k}] = true // thorough: confirmed like any other, outside the caps below
 					}
 				}
 				faults = append(faults, ref{u, k})
@@ -171,16 +175,21 @@ func (r *c09Run) explore(units [][]c09Case, progress func(i int, res []c09Result
 		}
 	}
 	r.c.Ev.Count("faults_listed_unconfirmed", accepted)
-	// bound the confirmation work: beyond 400 faults, or 24 deadline / memory kills, in one sweep the
-	// first-pass observation is taken as it is (how=unconfirmed) — a run with that many new faults is
-	// a violation whatever the rest turns out to be
+	// bound the confirmation work for faults that are not listed: beyond 400 of them, or 24 deadline /
+	// memory kills, in one sweep the first-pass observation is taken as it is (how=unconfirmed) — a
+	// run with that many new faults is a violation whatever the rest turns out to be
 	{
 		var keep []ref
-		slow := 0
+		slow, fresh := 0, 0
 		for _, f := range faults {
 			st := res[f.u][f.k].Status
 			isSlow := st == "H" || st == "M"
-			if len(keep) >= 400 || (isSlow && slow >= 24) {
+			if listed[f] {
+				keep = append(keep, f)
+				continue
+			}
+			fresh++
+			if os.Getenv("C09_NOCAP") == "" && (fresh > 400 || (isSlow && slow >= 24)) {
 				if st != "S" {
 					obs[f.u][f.k].Kind, obs[f.u][f.k].How = c09FaultKind(res[f.u][f.k]), "unconfirmed"
 				} else {
